@@ -82,7 +82,10 @@ IdpSigners == { [idpkey |-> k, hash |-> h] : k \in {"rsa-key", "rsa-signer"}, h 
 \* the documents carry (two days) has passed.  The statement calls the published metadata sufficient registration
 \* without a time limit, and the library reads validUntil of neither document
 Cfg(e, k, b, sg, en, i) == [entityid |-> e, spkey |-> k, binding |-> b, signed |-> sg, enc |-> en,
-                            idpkey |-> i.idpkey, hash |-> i.hash, mdage |-> "fresh"]
+                            idpkey |-> i.idpkey, hash |-> i.hash, mdage |-> "fresh", reqattrs |-> FALSE]
+\* reqattrs: the registered SP metadata carries an AttributeConsumingService that requests user_id / email / first_name /
+\* last_name / full_name (basic or unspecified name format): the assertion then ALSO carries those attributes, each with
+\* the session field the library documents for it (user_id: the user name - not the name identifier)
 AllCfgs == { Cfg(e, k, b, sg, en, i) : e \in {"set", "unset"}, k \in {"rsa", "ecdsa"}, b \in {"redirect", "post"},
                                        sg \in BOOLEAN, en \in {"on", "off"}, i \in IdpSigners }
 \* the two deployments the "text" family is run under (x enc on / off)
@@ -93,6 +96,9 @@ Case(f, pos, s, cfg) == [fam |-> f, pos |-> pos, s |-> s, cfg |-> cfg]
 TextCases == { Case("text", pos, s, cfg) : pos \in Positions, s \in TextStrings, cfg \in TextCfgs }
 CfgCases  == { Case("cfg",  pos, s, cfg) : pos \in {"NameID", "CustomName"}, s \in CfgStrings, cfg \in AllCfgs }
              \cup { Case("cfg", "NameID", <<"plain">>, [cfg EXCEPT !.mdage = "stale"]) : cfg \in AllCfgs }
+             \cup { Case("cfg", pos, s, [cfg EXCEPT !.reqattrs = TRUE]) :
+                       pos \in {"NameID", "UserName", "UserEmail", "UserGivenName", "UserSurname", "UserCommonName"},
+                       s \in {<<"plain">>, <<"amp", "lt">>}, cfg \in TextCfgs }
 
 (******************************** state *************************************)
 VARIABLES c,        \* the abstract case
